@@ -5,6 +5,7 @@ SPEC = {
         "AM.Nflog.merge_dup", "AM.Nflog.merge_result", "AM.Nflog.merge_comm", "AM.Nflog.fold_merge_perm",
         "AM.Nflog.gc_spec", "AM.Nflog.gc_keeps_unexpired", "AM.Nflog.gc_drops_expired",
         "AM.Nflog.query_spec", "AM.Nflog.log_spec", "AM.Nflog.data_preserved", "AM.Nflog.decodeBatch_last_wins",
+        "AM.Nflog.fold_merge_newest", "AM.Nflog.fold_merge_from_offers", "AM.Nflog.mergeBatch_fst", "AM.Nflog.foldl_merge_ge",
     ],
     "engines": [
         {"name": "nflog", "pkg": "./nflog", "search_cases": 30000},
